@@ -278,9 +278,17 @@ pub fn work_dir() -> std::path::PathBuf {
 /// run `mc __worker <kind> <input file>` as a child process and read the report it prints;
 /// Err = the worker did not deliver a report (crash, kill): a machinery failure, never a verdict
 pub fn run_worker(kind: &str, input: &Value, ctx: &Ctx, tag: &str, rss_cap_gib: f64) -> Result<Report, String> {
-    let exe = std::env::current_exe().map_err(|e| e.to_string())?;
+    run_worker_sig(kind, input, ctx, tag, rss_cap_gib).map_err(|e| e.1)
+}
+
+/// as `run_worker`; the error carries the signal that ended the worker, if one did (SIGABRT after a stack
+/// overflow or a panic inside a panic, SIGSEGV): the caller decides whether the configuration it handed to
+/// the worker makes that a finding about the library (the same harness code ran the other configurations)
+pub fn run_worker_sig(kind: &str, input: &Value, ctx: &Ctx, tag: &str, rss_cap_gib: f64) -> Result<Report, (Option<i32>, String)> {
+    use std::os::unix::process::ExitStatusExt;
+    let exe = std::env::current_exe().map_err(|e| (None, e.to_string()))?;
     let path = work_dir().join(format!("{}-{}-{}.json", std::process::id(), kind, tag));
-    std::fs::write(&path, serde_json::to_vec(input).map_err(|e| e.to_string())?).map_err(|e| e.to_string())?;
+    std::fs::write(&path, serde_json::to_vec(input).map_err(|e| (None, e.to_string()))?).map_err(|e| (None, e.to_string()))?;
     let remaining = ctx.wall_cap.checked_sub(ctx.start.elapsed()).map(|d| d.as_secs()).unwrap_or(0).max(1);
     let out = std::process::Command::new(exe)
         .arg("__worker")
@@ -292,14 +300,14 @@ pub fn run_worker(kind: &str, input: &Value, ctx: &Ctx, tag: &str, rss_cap_gib: 
         .env("VERIF_WALL_CAP_S", format!("{}", remaining))
         .env("VERIF_RSS_CAP_GIB", format!("{}", rss_cap_gib))
         .output()
-        .map_err(|e| format!("cannot start worker: {}", e));
+        .map_err(|e| (None, format!("cannot start worker: {}", e)));
     let _ = std::fs::remove_file(&path);
     let out = out?;
     if !out.status.success() {
-        return Err(format!("worker {} {} ended with {:?}: {}", kind, tag, out.status, String::from_utf8_lossy(&out.stderr).chars().take(300).collect::<String>()));
+        return Err((out.status.signal(), format!("worker {} {} ended with {:?}: {}", kind, tag, out.status, String::from_utf8_lossy(&out.stderr).chars().rev().take(300).collect::<String>().chars().rev().collect::<String>())));
     }
-    let v: Value = serde_json::from_slice(&out.stdout).map_err(|e| format!("worker {} {} printed no report: {}", kind, tag, e))?;
-    Report::from_json(&v).ok_or_else(|| format!("worker {} {} printed an incomplete report", kind, tag))
+    let v: Value = serde_json::from_slice(&out.stdout).map_err(|e| (None, format!("worker {} {} printed no report: {}", kind, tag, e)))?;
+    Report::from_json(&v).ok_or_else(|| (None, format!("worker {} {} printed an incomplete report", kind, tag)))
 }
 
 /// Run `f` over `items` on `threads` workers (each item is an independent configuration whose
